@@ -53,11 +53,11 @@ impl OpKind {
         match self {
             OpKind::Build => 1,
             OpKind::Integrator => 1,
-            OpKind::IntegratorToVoronoi => 2,
+            OpKind::IntegratorToVoronoi => 3,
             OpKind::CellIntegrals => 5,
             OpKind::FaceIntegrals => 5,
             OpKind::FaceIntegralsSym => 5,
-            OpKind::WithFaces => 7,
+            OpKind::WithFaces => 8,
         }
     }
 }
@@ -129,6 +129,36 @@ macro_rules! impl_surface {
                     }
                 }
                 d.push(&format!("{}.neighbours", prefix), &h);
+            }
+
+            /// `VoronoiIntegrator::build_voronoi_cells` observed directly: the per-cell face vectors
+            /// (which vector holds what), not only their concatenation.
+            macro_rules! digest_cell_face_vectors {
+                ($d:expr, $prefix:expr, $integ:expr, $n:expr) => {{
+                    let mut faces: Vec<Vec<_>> = (0..$n).map(|_| Vec::new()).collect();
+                    let cells = $integ.build_voronoi_cells(&mut faces);
+                    let mut h = Hasher::new();
+                    h.usize(cells.len());
+                    for c in &cells {
+                        h.v3(c.loc());
+                        h.v3(c.centroid());
+                        h.f64(c.volume());
+                        h.f64(c.safety_radius());
+                    }
+                    for (i, fv) in faces.iter().enumerate() {
+                        h.usize(i);
+                        h.usize(fv.len());
+                        for f in fv {
+                            h.usize(f.left());
+                            h.opt_usize(f.right());
+                            h.opt_v3(f.shift());
+                            h.f64(f.area());
+                            h.v3(f.centroid());
+                            h.v3(f.normal());
+                        }
+                    }
+                    $d.push(&format!("{}.cell_face_vectors", $prefix), &h);
+                }};
             }
 
             macro_rules! digest_cells {
@@ -297,6 +327,7 @@ macro_rules! impl_surface {
                         let vi = VoronoiIntegrator::build(&gens, mask, anchor, width, dim, case.periodic);
                         let v = Voronoi::from(&vi);
                         digest_voronoi(&mut d, "from_integrator", &v);
+                        digest_cell_face_vectors!(d, "integrator", vi, n);
                     }
                     OpKind::CellIntegrals => {
                         let vi = VoronoiIntegrator::build(&gens, mask, anchor, width, dim, case.periodic);
@@ -321,6 +352,7 @@ macro_rules! impl_surface {
                             digest_cells!(d, "with_faces", vf, n, with);
                             let v = Voronoi::from(&vf);
                             digest_voronoi(&mut d, "from_with_faces", &v);
+                            digest_cell_face_vectors!(d, "with_faces", vf, n);
                             digest_integrals!(d, "with_faces", vf, n, cell);
                             digest_integrals!(d, "with_faces", vf, n, face, compute_face_integrals, compute_face_integrals_with_data);
                             digest_integrals!(d, "with_faces", vf, n, face, compute_face_integrals_sym, compute_face_integrals_sym_with_data);
@@ -332,6 +364,21 @@ macro_rules! impl_surface {
 
             /// Run one operation; a panic is part of the observable outcome.
             pub fn run_op(case: &Case, op: OpKind) -> Outcome {
+                run_op_f(case, op, None)
+            }
+
+            /// The same with a fault: the user-supplied (tagged) integral panics at its `call`-th
+            /// invocation for cell `cell`, in the middle of that cell's decomposition; the caller
+            /// (this function) catches it. Ops that evaluate no user integral are unaffected.
+            pub fn run_op_f(case: &Case, op: OpKind, fault: Option<(usize, usize)>) -> Outcome {
+                struct Reset;
+                impl Drop for Reset {
+                    fn drop(&mut self) {
+                        $krate::verif::set_injected_panic(None);
+                    }
+                }
+                let _reset = Reset;
+                $krate::verif::set_injected_panic(fault);
                 match std::panic::catch_unwind(std::panic::AssertUnwindSafe(|| run_inner(case, op))) {
                     Ok(d) => Outcome::Ok(d),
                     Err(p) => {
